@@ -18,12 +18,14 @@ import ProfiVerif.Lemmas.Dp14Turns
 namespace PV.C14
 open PV PV.Dp
 
+/-- Every state a contract history reaches — with `reset_address()` at any point — satisfies the
+invariants the step theorems assume. -/
 theorem reachable {fp : FdlParams} (hfp : FpOk fp) {slots : List (Option Peripheral)}
     (hinit : InitOk fp slots) (gr : Bool) (ops : List Op) :
-    ∀ {g : G}, grun fp (G.init slots gr) ops = .ok g → Inv fp g ∧ (g.staleEv = false → Inv14 g) := by
-  suffices H : ∀ (ops : List Op) (g0 : G), Inv fp g0 → (g0.staleEv = false → Inv14 g0) →
-      ∀ g, grun fp g0 ops = .ok g → Inv fp g ∧ (g.staleEv = false → Inv14 g) by
-    intro g h; exact H ops _ (inv_init hinit gr) (fun _ => inv14_init hinit gr) g h
+    ∀ {g : G}, grun fp (G.init slots gr) ops = .ok g → Inv fp g ∧ Inv14 g := by
+  suffices H : ∀ (ops : List Op) (g0 : G), Inv fp g0 → Inv14 g0 →
+      ∀ g, grun fp g0 ops = .ok g → Inv fp g ∧ Inv14 g by
+    intro g h; exact H ops _ (inv_init hinit gr) (inv14_init hinit gr) g h
   intro ops
   induction ops with
   | nil => intro g0 h1 h2 g h; simp only [grun, Res3.ok.injEq] at h; subst h; exact ⟨h1, h2⟩
@@ -33,7 +35,7 @@ theorem reachable {fp : FdlParams} (hfp : FpOk fp) {slots : List (Option Periphe
     cases hs : gstep fp g0 op with
     | ok g1 =>
       rw [hs] at h
-      exact ih g1 (inv_step hfp h1 op hs) (fun hu => inv14_step hfp h1 (h2 (staleEv_mono op hs hu)) op hs hu) g h
+      exact ih g1 (inv_step hfp h1 op hs) (inv14_step hfp h1 h2 op hs) g h
     | panic => rw [hs] at h; cases h
     | hang => rw [hs] at h; cases h
     | refused => rw [hs] at h; cases h
@@ -218,12 +220,15 @@ theorem one_event_per_callback {fp : FdlParams} (hfp : FpOk fp) {g g' : G} (hI :
 /-- `lifecycle`: with collection after every poll, every event `take_last_events` hands out is
 accepted by the life-cycle automaton of its peripheral (Online only while off; Configured,
 DataExchanged, Diagnostics only after Online / Configured; Offline, ParameterError, ConfigError only
-while live), and it names an occupied slot. -/
-theorem lifecycle_event {g : G} (h4 : Inv14 g) (hc : g.collected = true)
+while live), and it names an occupied slot — unless it is a stale event: one that was produced for an
+incarnation of the peripheral which `reset_address()` has replaced since (`staleEv`; such an event is
+handed out once, by the next `take_last_events`, and is not counted). -/
+theorem lifecycle_event {g : G} (h4 : Inv14 g) (hc : g.collected = true) (hs : g.staleEv = false)
     {he : HEvent} (hev : g.m.lastEvents.peripheral = some he)
     {p : Peripheral} (hp : g.m.slots[he.index]? = some (some p)) :
     ∃ v, lcStep (g.sg he.index).lc he.ev = some v := by
   obtain ⟨v, hv, _⟩ := h4.lc hc he.index p hp
+  rw [lcNow_fresh hs] at hv
   simp only [lcEff, hev, if_true] at hv
   exact ⟨v, hv⟩
 
@@ -233,7 +238,7 @@ theorem lifecycle_accessors {g : G} (h4 : Inv14 g) (hc : g.collected = true) (hd
     {i : Nat} {p : Peripheral} (hp : g.m.slots[i]? = some (some p)) :
     (p.isLive = true ↔ (g.sg i).lc ≠ 0) ∧ (p.isRunning = true → (g.sg i).lc = 2) ∧ (g.sg i).lc ≤ 2 := by
   obtain ⟨v, hv, hok⟩ := h4.lc hc i p hp
-  rw [lcEff_none (h4.clean hd)] at hv
+  rw [lcNow_none (h4.clean hd)] at hv
   simp only [Option.some.injEq] at hv
   subst hv
   refine ⟨?_, ?_, hok.le⟩
@@ -394,5 +399,26 @@ def turnsCheck : Bool :=
    | _ => false)
 
 example : turnsCheck = true := by decide +kernel
+
+/-- `reset_address()` while the peripheral's event is still uncollected: the stale Online event of the
+old incarnation is handed out by the next `take_last_events` but not counted (`staleEv`); the fresh
+peripheral at the new address then comes Online as usual and the life-cycle automaton accepts its
+events — `Inv14` (from `reachable`) holds throughout. -/
+def staleCheck : Bool :=
+  let diag9 : Telegram := .data ⟨2, 9, some 62, some 60, .response .slave .dataLow⟩ [0x02, 0x05, 0, 2, 0x80, 0xb1]
+  let pre : List Op := [.tx 1000 false, .take, .tx 2000 false, .take, .reply 7 (Ex.diagReply 0x02 0x05), .resetAddr 1 9]
+  (match grun Ex.fp (G.init Ex.slots false) pre with
+   | .ok g => g.staleEv && g.collected && g.m.lastEvents.peripheral.isSome && (g.sg 1).lc == 0
+   | _ => false) &&
+  (match grun Ex.fp (G.init Ex.slots false) (pre ++ [.take]) with
+   | .ok g => !g.staleEv && g.collected && (g.sg 1).lc == 0 &&
+       g.taken == [{ index := 1, address := 7, ev := .online }]
+   | _ => false) &&
+  (match grun Ex.fp (G.init Ex.slots false) (pre ++ [.take, .tx 3000 false, .take, .tx 4000 false, .take, .reply 9 diag9, .take]) with
+   | .ok g => !g.staleEv && g.collected && (g.sg 1).lc == 1 && g.produced == g.taken &&
+       g.taken == [{ index := 1, address := 7, ev := .online }, { index := 1, address := 9, ev := .online }]
+   | _ => false)
+
+example : staleCheck = true := by decide +kernel
 
 end PV.C14
